@@ -55,7 +55,14 @@ def make_interp(repo, legacy_log=None):
             return f
         if name == "scipy.signal.lfilter_zi":
             return ArrParam("zi0")
+        if name in ("numpy.zeros_like", "numpy.ones_like", "numpy.empty_like", "numpy.full_like") and args and kw.get("dtype") is None:
+            # *_like without dtype= inherits the dtype of its argument: remember allocations that inherit an integer dtype
+            A_ = as_arr(args[0]) if isinstance(args[0], (Arr, ArrParam)) else None
+            if A_ is not None and to_x(A_.body) is not None and lm.is_integer(to_x(A_.body)) and not isinstance(args[0], ArrParam):
+                I.int_like_allocs.append(n)
+            return NotImplemented
         return NotImplemented
+    I.int_like_allocs = []
     I.hooks["lib"] = lib
 
     def method(I_, o, name, args, kw, st, n):
@@ -161,6 +168,23 @@ def check_handover(ctx, rule="R1-state-hand-over"):
                 return NotImplemented
             I.hooks["call"] = call
             o = instantiate(I, cls, seed=X.var("seed"))
+            if label == "n samples":
+                # the carried state must be a floating-point array: an integer array truncates the state written back after every call
+                init = repo.get(f"{NOISE}::{cls}.__init__")
+                me_ = init.args.args[0].arg
+                bad_alloc = None
+                for a_ in ast.walk(init):
+                    if isinstance(a_, ast.Assign) and any(isinstance(t_, ast.Attribute) and isinstance(t_.value, ast.Name) and t_.value.id == me_ and t_.attr == state for t_ in a_.targets):
+                        for c_ in ast.walk(a_.value):
+                            if any(c_ is n_ for n_ in getattr(I, "int_like_allocs", [])): bad_alloc = c_
+                        for c_ in ast.walk(a_.value):
+                            if isinstance(c_, ast.keyword) and c_.arg == "dtype" and any(k_ in ast.unparse(c_.value) for k_ in ("int", "bool")): bad_alloc = bad_alloc or c_
+                w0 = repo.where(f"{NOISE}::{cls}.__init__", init)
+                if bad_alloc is not None:
+                    ctx.violated(rule, f"{NOISE}::{cls}.__init__[{state} dtype]", f"the carried filter state is allocated with an integer dtype ({' '.join(ast.unparse(bad_alloc).split())[:60]}): the "
+                                 "final state stored back after each call is truncated, so a stream generated in blocks differs from one generated in a single call", w0)
+                else:
+                    ctx.holds(rule, f"{NOISE}::{cls}.__init__[{state} dtype]", "state allocation does not inherit / request an integer dtype", w0)
             if not isinstance(o, Obj):
                 ctx.unknown(rule, f"{key}[{label}]", "constructor not interpreted", where); continue
             before = ArrParam("state0"); o.attrs[state] = before
